@@ -14,6 +14,14 @@ spec fn spec_cv_header(section_id: u8, section_length: u64, data_offset: u64, in
 spec fn spec_file_header(sig: Seq<u8>, major: u32, minor: u32, phys_length: u64, xml_offset: u64, xml_length: u64, page_size: u64) -> Seq<u8> {
     sig + le_bytes32(major) + le_bytes32(minor) + le_bytes64(phys_length) + le_bytes64(xml_offset) + le_bytes64(xml_length) + le_bytes64(page_size)
 }
+proof fn lemma_le64_zero()
+    ensures forall|i: int| 0 <= i < 8 ==> #[trigger] le_bytes64(0)[i] == 0u8
+{
+    assert forall|i: int| 0 <= i < 8 implies #[trigger] le_bytes64(0)[i] == 0u8 by {
+        let sh = (8 * i) as u64;
+        assert((0u64 >> sh) as u8 == 0u8) by (bit_vector);
+    }
+}
 proof fn lemma_le16_value(x: u16)
     ensures le_bytes16(x)[0] as int + 256 * (le_bytes16(x)[1] as int) == x
 {
@@ -21,7 +29,7 @@ proof fn lemma_le16_value(x: u16)
 }
 
 impl DataPacketHeader {
-//@fn src/packet.rs DataPacketHeader write serves=C02,C01,C16 ret=r
+//@fn src/packet.rs DataPacketHeader write serves=C02,C01,C16,C15 ret=r
 //@rw writer: &mut dyn Write ==> writer: &mut PagedWriter
 //@sig
         requires old(writer).wf(), 1 <= self.packet_length <= 65536,
@@ -29,13 +37,14 @@ impl DataPacketHeader {
             Ok(_) => final(writer).wf() && final(writer).no_new_fault(old(writer))
                 && appended(*old(writer), *final(writer), spec_data_packet_header(self.comp_restart_flag, self.packet_length, self.bytestream_count)),
             Err(_) => true },
+            /*[C15]*/ PagedWriter::c15_far(old(writer), final(writer), r is Ok),
 //@tail
         proof { assert(buffer@ =~= spec_data_packet_header(self.comp_restart_flag, self.packet_length, self.bytestream_count)); }
 //@endfn
 }
 
 impl CompressedVectorSectionHeader {
-//@fn src/cv_section.rs CompressedVectorSectionHeader write serves=C02,C01,C16 ret=r
+//@fn src/cv_section.rs CompressedVectorSectionHeader write serves=C02,C01,C16,C15 ret=r
 //@rw writer: &mut dyn Write ==> writer: &mut PagedWriter
 //@sig
         requires old(writer).wf(),
@@ -43,6 +52,7 @@ impl CompressedVectorSectionHeader {
             Ok(_) => final(writer).wf() && final(writer).no_new_fault(old(writer))
                 && appended(*old(writer), *final(writer), spec_cv_header(self.section_id, self.section_length, self.data_offset, self.index_offset)),
             Err(_) => true },
+            /*[C15]*/ PagedWriter::c15_far(old(writer), final(writer), r is Ok),
 //@tail
         proof { assert(buffer@ =~= spec_cv_header(self.section_id, self.section_length, self.data_offset, self.index_offset)); }
 //@endfn
@@ -66,10 +76,17 @@ impl Header {
         requires old(writer).wf(),
         ensures match r {
             // the 48 header bytes of the format, in order, at the cursor; nothing else changes
-            Ok(_) => final(writer).wf() && final(writer).no_new_fault(old(writer)) && appended(*old(writer), *final(writer), self.bytes()),
-            Err(_) => true },
+            Ok(_) => final(writer).wf() && final(writer).no_new_fault(old(writer)) && appended(*old(writer), *final(writer), self.bytes())
+                // 48 bytes that stay inside the page: no device operation at all
+                && (old(writer).offset + 48 < 1020 ==> final(writer).writer == old(writer).writer),
+            // 48 bytes inside the page cannot fail: no device operation happens
+            Err(_) => old(writer).offset + 48 >= 1020 },
+            // C15: a header written anywhere else, or the placeholder (XML length zero) written at offset 0, leaves the XML-length field zero
+            /*[C15]*/ (old(writer).quiet() && (old(writer).cursor() >= 40 || (old(writer).cursor() == 0 && self.xml_length == 0)))
+                ==> (if r is Ok { final(writer).quiet() } else { final(writer).hist_clean() }),
 //@body_start
         let ghost w0 = *writer;
+        proof { lemma_le64_zero(); if w0.quiet() { lemma_quiet_clean(w0); } }
 //@call write_all 0 after
         let ghost w1 = *writer;
 //@call write_all 1 after
